@@ -17,10 +17,14 @@ impl Code {
         let parse = SimpleSLParser::parse(Rule::input, script)?;
         let mut local_variables = LocalVariables::new(interpreter);
         let instructions = parse
-            .map(|pair| {
-                InstructionWithStr::new(pair, &mut local_variables)
-                    .and_then(|iws| Ok(iws.recreate(&mut local_variables)?))
-            })
+            .map(|pair| InstructionWithStr::new(pair, &mut local_variables))
+            .collect::<Result<Box<[InstructionWithStr]>, Error>>()?;
+        // fold in a second pass over a fresh scope (as blocks and function bodies do): a
+        // statement must not see the names it declares itself while it is being recreated
+        let mut local_variables = LocalVariables::new(interpreter);
+        let instructions = instructions
+            .iter()
+            .map(|iws| Ok(iws.recreate(&mut local_variables)?))
             .collect::<Result<_, Error>>()?;
         Ok(Self { instructions })
     }
